@@ -17,34 +17,7 @@ import (
 func init() {
 	Exec["bitmap.TailBitmap"] = func(a []V) string {
 		tb := bitmap.NewTailBitmap(a[0].I64())
-		out := make([]string, 0, len(a[1].L))
-		for _, c := range a[1].L {
-			var r uint64
-			switch c.L[0].Int() {
-			case 0:
-				tb.Set(c.L[1].I64())
-			case 1:
-				tb.Compact()
-			case 2:
-				r = tb.Get(c.L[1].I64())
-			case 3:
-				r = tb.Get1(c.L[1].I64())
-			case 4:
-				from, to := c.L[1].I64(), c.L[2].I64()
-				for idx := from; idx < to; idx++ {
-					tb.Set(idx)
-				}
-			case 5:
-				from, to := c.L[1].I64(), c.L[2].I64()
-				for idx := to - 1; idx >= from; idx-- {
-					tb.Set(idx)
-				}
-			default:
-				panic("bad call")
-			}
-			out = append(out, L(I(tb.Offset), U64s(tb.Words), U(r)))
-		}
-		return L(out...)
+		return L(c15Apply(tb, a[1].L)...)
 	}
 	Register("C15", genC15)
 }
@@ -127,7 +100,7 @@ func (h *c15Hist) Down(from, to int64) {
 
 // Probe emits Get (kind 2) or Get1 (kind 3) if j is inside the domain.
 func (h *c15Hist) Probe(kind int, j int64) bool {
-	if j < 0 || j >= h.end {
+	if j < -(1<<40) || j >= h.end {
 		return false
 	}
 	switch {
@@ -189,7 +162,7 @@ func (h *c15Hist) probePoints(last int64) []int64 {
 	off := h.offset()
 	return []int64{last, last - 1, last + 1, last ^ 63, last + 64, last - 64,
 		off - 1, off, off + 1, off + 63, off + 64, h.first, h.first - 1, h.first + 1,
-		h.end - 1, h.end - 64, h.end - 65, 0, 63, 64, h.o - 1, h.o, h.o - 64}
+		h.end - 1, h.end - 64, h.end - 65, 0, 63, 64, h.o - 1, h.o, h.o - 64, -1, -64, -65}
 }
 
 func (h *c15Hist) randomProbes(g *Gen, last int64, n int) {
@@ -212,9 +185,6 @@ func (h *c15Hist) randomProbes(g *Gen, last int64, n int) {
 // implicit word (and all positions when full is set).
 func (h *c15Hist) sweep(full bool) {
 	lo := h.o - 128
-	if lo < 0 {
-		lo = 0
-	}
 	for j := lo; j < h.end; j++ {
 		m := j & 63
 		if full || m <= 1 || m >= 62 || m == 31 || m == 32 || h.set[j] != h.set[j+1] || (j > 0 && h.set[j] != h.set[j-1]) {
@@ -229,7 +199,11 @@ func genC15(g *Gen) {
 	// the first two words, probes at all edge positions after the last call
 	// (and after every call for L <= 2).
 	maxL := g.N(3, 4)
-	for _, o := range []int64{0, 64, 640} {
+	exhO := []int64{0, 64, -64}
+	if g.Thorough {
+		exhO = []int64{0, 64, -64, -128, 640}
+	}
+	for _, o := range exhO {
 		type act func(h *c15Hist)
 		alpha := []act{
 			func(h *c15Hist) { h.Set(o - 1) },
@@ -269,12 +243,12 @@ func genC15(g *Gen) {
 			lev(nil)
 		}
 	}
-	g.Exhaust = append(g.Exhaust, fmt.Sprintf("all histories of 1..%d calls over an 11-call alphabet (Set at o-1,o,o+63,o+64,o+127,o+130; Compact; bulk fills of word 0 minus one bit, word 1, word 2) for o in {0,64,640}, Get and Get1 probed at every word-edge and set-edge position", maxL))
+	g.Exhaust = append(g.Exhaust, fmt.Sprintf("all histories of 1..%d calls over an 11-call alphabet (Set at o-1,o,o+63,o+64,o+127,o+130; Compact; bulk fills of word 0 minus one bit, word 1, word 2) for o in {0,64,-64} (thorough: also -128, 640), Get and Get1 probed at every word-edge and set-edge position", maxL))
 
 	// (2) structured random histories
 	nh := g.N(2500, 40000)
 	for k := 0; k < nh; k++ {
-		o := int64(64 * g.R.Pick(0, 0, 1, 2, 3, 10, 100, 1000, 1<<20, 1<<33))
+		o := int64(64 * g.R.Pick(0, 0, 1, 2, 3, 10, 100, 1000, 1<<20, 1<<33, -1, -1, -2, -3, -100, -(1 << 20), -(1 << 33)))
 		h := c15New(o)
 		W := int64(g.R.Range(1, 6))
 		if g.R.Intn(8) == 0 {
@@ -420,6 +394,97 @@ func genC15(g *Gen) {
 			h.emit(g, "threshold-in-order-1030w")
 		}
 	}
+	// (4) far sets: a single bit 1023..1025 (thorough: ..4096) words ahead of
+	// Offset at every edge position of its word, probed around it; then the
+	// first word is completed so that a compaction happens with a long tail.
+	// (Kills word-index arithmetic that is only wrong far from Offset.)
+	farWords := []int64{1023, 1024, 1025}
+	if g.Thorough {
+		farWords = append(farWords, 2047, 2048, 4096)
+	}
+	for _, o := range []int64{0, 64 * 3} {
+		for _, k := range farWords {
+			for _, e := range []int64{0, 1, 31, 32, 62, 63} {
+				h := c15New(o)
+				idx := o + 64*k + e
+				h.Set(idx)
+				for _, j := range []int64{idx, idx - 1, idx + 1, idx ^ 63, idx - 64, idx &^ 63, idx | 63, o + 63, o} {
+					h.Probe(2, j)
+					h.Probe(3, j)
+				}
+				if e == 63 || e == 0 {
+					h.Up(o, o+64)
+					h.Probe(3, idx)
+					h.Probe(2, idx-64)
+					h.Probe(3, o+64)
+				}
+				h.emit(g, "far-set")
+			}
+		}
+	}
+
+	// (5) a LONG tail at the moment the reclaim threshold is crossed (both tiers):
+	// bits 1025 / 2100 / 5000 words ahead are set first, then the first 1024
+	// words are filled in order (each completed word is compacted away), so
+	// the reclaim branch runs while more than 1024 words are still stored.
+	// Every far bit, its neighbours and the last stored position are probed
+	// after the crossing (a reclaim that truncates / zeroes / re-bases the
+	// tail loses them or panics), then the fill goes on over a second crossing.
+	c15Far := func(h *c15Hist, fars []int64) {
+		for _, f := range fars {
+			for _, j := range []int64{f, f - 1, f + 1, f &^ 63, f | 63} {
+				h.Probe(3, j)
+			}
+			h.Probe(2, f)
+		}
+		h.Probe(3, h.end-1)
+		h.Probe(2, h.end-1)
+		h.Probe(3, h.offset())
+	}
+	for _, o := range []int64{0, 64 * 5} {
+		// A: all three far bits in one history, crossing inside a bulk fill
+		{
+			h := c15New(o)
+			fars := []int64{o + 64*5000 + 63, o + 64*2100, o + 64*1025 + 31}
+			for _, f := range fars {
+				h.Set(f)
+			}
+			h.Up(o, o+65472) // 1023 words: one short of the threshold
+			for _, f := range fars {
+				h.Probe(3, f)
+			}
+			h.Up(o+65472, o+65536+64) // crosses it
+			c15Far(h, fars)
+			h.Compact()
+			c15Far(h, fars)
+			h.Set(h.offset() + 7)
+			f := h.offset()
+			h.Up(f, f+65536+128) // second crossing; passes the nearest far bit
+			c15Far(h, fars[:2])
+			h.emit(g, "threshold-long-tail")
+		}
+		// B: one far bit each; exactly 1024 words filled; crossing by a bulk fill or by a single Set
+		for _, far := range []int64{1025, 2100, 5000} {
+			for variant := 0; variant < 2; variant++ {
+				h := c15New(o)
+				f := o + 64*far + int64(g.R.Pick(0, 1, 31, 32, 62, 63))
+				h.Set(f)
+				if variant == 0 {
+					h.Up(o, o+65536)
+				} else {
+					h.Up(o, o+65535)
+					c15Far(h, []int64{f})
+					h.Set(o + 65535)
+				}
+				c15Far(h, []int64{f})
+				h.Set(f + 1)
+				h.Set(h.offset())
+				c15Far(h, []int64{f, f + 1})
+				h.emit(g, "threshold-long-tail")
+			}
+		}
+	}
+
 	// a small back-to-front fill in quick; the 1100-word one in thorough
 	sizes := []int64{3, 40}
 	if g.Thorough {
@@ -446,4 +511,9 @@ func genC15(g *Gen) {
 			h.emit(g, fmt.Sprintf("back-to-front-%dw", nw))
 		}
 	}
+
+	// widened operations (harness/c15lit.go)
+	genC15Literal(g)
+	genC15Words(g)
+	genC15Int64(g)
 }
